@@ -233,7 +233,39 @@ FRAGS = [
     # 15 mapping keyword
     '<dtml-in mseq mapping sort_expr="sk"><dtml-var a>=<dtml-var n> '
     '</dtml-in>',
+    # 16 more var modifiers (non-simple var tags)
+    '<dtml-var x url_quote>;<dtml-var x newline_to_br spacify>;'
+    '<dtml-var n2 thousands_commas>;<dtml-var c null="NULL">;'
+    '<dtml-var x sql_quote lower>',
+    # 17 prefix, no_push_item, keyed items
+    '<dtml-in seq prefix=p><dtml-var p_index>:<dtml-with p_item>'
+    '<dtml-var a></dtml-with> </dtml-in><dtml-in pairs><dtml-var hook>'
+    '<dtml-var sequence-key>=<dtml-var sequence-item>,</dtml-in>',
+    # 18 batch with orphan / next flag and batch navigation (no overlap:
+    # overlap >= size makes next-batches loop for ever, a C11 matter)
+    '<dtml-in seq sort=n reverse size=sz orphan=1 start=st>'
+    '<dtml-var a><dtml-if sequence-end><dtml-in next-batches mapping>'
+    '(<dtml-var batch-start-index>-<dtml-var batch-end-index>)</dtml-in>'
+    '</dtml-if></dtml-in><dtml-in seq size=sz start=st next>'
+    'N<dtml-var next-sequence-start-number></dtml-in>',
+    # 19 entity syntax and implicit expression
+    '&dtml-x;|&dtml.url_quote-x;|<dtml-var "x + _.str(n2)">',
+    # 20 with / let over computed namespaces
+    '<dtml-with expr="_.namespace(q=x, r=n2)"><dtml-let a2=q b2="r+1" '
+    'c2=a2><dtml-var a2>.<dtml-var b2>.<dtml-var c2></dtml-let></dtml-with>',
+    # 21 try / finally, try / else
+    '<dtml-try><dtml-try><dtml-var hook><dtml-var x><dtml-finally>F'
+    '</dtml-try><dtml-except>X<dtml-else>E</dtml-try>',
+    # 22 grouping and more statistics
+    '<dtml-in seq sort=n><dtml-if first-n>{<dtml-var n>:</dtml-if>'
+    '<dtml-var a><dtml-if last-n>}</dtml-if><dtml-if sequence-end>'
+    '<dtml-var median-n>/<dtml-var min-a>/<dtml-var sequence-var-a>'
+    '</dtml-if></dtml-in>',
+    # 23 unless / call / comment
+    '<dtml-unless c>U<dtml-var x></dtml-unless><dtml-call hook>'
+    '<dtml-comment>never <dtml-var nothing></dtml-comment>',
 ]
+HTML_ONLY = ('<dtml-var expr=', '&dtml', '<dtml-var "')
 SUB_SRC = '<dtml-in seq sort_expr="sk"><dtml-var a></dtml-in><dtml-var dflt>'
 
 
@@ -303,11 +335,14 @@ def build_inputs(spec, plan, template):
     seq = [Rec('r%d' % i, a=a, n=n) for i, (a, n) in enumerate(spec['recs'])]
     mseq = [{'a': a, 'n': n} for a, n in spec['recs']]
     hook = Hook(plan, template)
-    data = {'seq': seq, 'mseq': mseq, 'sk': spec['sk'], 'rv': spec['rv'],
+    data = {'seq': seq, 'mseq': mseq,
+            'pairs': [(a, n) for a, n in spec['recs']],
+            'sk': spec['sk'], 'rv': spec['rv'],
             'st': spec['st'], 'sz': spec['sz'], 'x': spec['x'],
             'b': bytes.fromhex(spec['b']), 'n2': spec['n2'], 'c': spec['c'],
             'obj': Rec('obj', a='oa', n=9), 'hook': hook}
-    watch = [seq, mseq, data] + mseq + [o.__dict__ for o in seq]
+    watch = [seq, mseq, data, data['pairs']] + mseq + \
+        [o.__dict__ for o in seq]
     via = spec['via']
     if via == 'kw':
         return None, {}, data, hook, watch
@@ -350,7 +385,7 @@ CLASSES = ['HTML', 'HTML', 'HTML', 'String', 'HTMLFile', 'HTMLFile', 'File']
 def gen_source(r, string_syntax=False):
     k = r.choice([1, 2, 2, 3])
     pool = [i for i in range(len(FRAGS))
-            if not (string_syntax and '<dtml-var expr=' in FRAGS[i])]
+            if not (string_syntax and any(h in FRAGS[i] for h in HTML_ONLY))]
     return ''.join(FRAGS[i] + r.choice(['', ' ', '\n'])
                    for i in r.sample(pool, k))
 
